@@ -50,7 +50,7 @@ def run(ctx):
         return st
 
     # --- G5 x G4
-    nmol = 500 if quick else 6000
+    nmol = 1000 if quick else 8000
     for i in range(nmol):
         if i % 25 == 0:
             t = tablegen.any_table(rng)
